@@ -1253,9 +1253,36 @@ def case_export_histories(ctx, rseed, count):
         F = K()
         steps = []
         for step in range(r.randint(3, 9)):
-            op = r.choice(["clause", "grow", "grow", "variable", "block", "header", "export", "export"])
+            op = r.choice(["clause", "grow", "grow", "variable", "block", "header", "export", "export", "linear", "linear", "clauses"])
             n = F.number_of_variables()
-            if op == "clause":
+            if op == "linear" and hasattr(F, "add_linear"):
+                # every public way to add constraints, including ones that are trivially true (no clause comes out of
+                # them) or trivially false but still mention a new highest variable
+                top = n + r.choice([0, 1, 1, 3])
+                lits = sorted({r.choice([1, -1]) * v for v in r.sample(range(1, top + 1), min(top, r.randint(1, 3)))} | {top}, key=abs) if top else []
+                lits = [l for i, l in enumerate(lits) if abs(l) not in [abs(x) for x in lits[:i]]]
+                how = r.randrange(8)
+                op = "linear:%d:%r" % (how, lits)
+                if how == 0:
+                    F.add_linear(lits, "<=", len(lits) + r.randint(0, 1))
+                elif how == 1:
+                    F.cardinality_geq(lits, r.choice([0, 0, -1, 1]))
+                elif how == 2:
+                    F.cardinality_neq(lits, len(lits) + 2)
+                elif how == 3:
+                    F.cardinality_leq(lits, len(lits))
+                elif how == 4:
+                    F.add_linear(lits, ">=", r.randint(-1, 0))
+                elif how == 5:
+                    F.add_parity(lits, r.randint(0, 1))
+                elif how == 6:
+                    F.cardinality_eq(lits, r.randint(0, len(lits)))
+                else:
+                    F.add_linear(lits, "!=", -1)
+            elif op == "clauses":
+                top = n + r.choice([0, 0, 2])
+                F.add_clauses_from([[r.choice([1, -1]) * r.randint(1, top) for _ in range(r.randint(1, 3))] for _ in range(r.randint(0, 2))] if top else [])
+            elif op == "clause":
                 top = n + r.choice([0, 0, 2])
                 F.add_clause([r.choice([1, -1]) * r.randint(1, top) for _ in range(r.randint(0, 3))] if top else [])
             elif op == "grow":
